@@ -1,11 +1,95 @@
-"""C05 -> C02 bridge: theorems in coq/Properties/C05_bridge.v (coq/Flow/WireToNet.v): every message
-the model of Consensus.handle accepts abstracts to a Qbft.Model.msg that satisfies the deliverability
-premise of the network semantics coq/Qbft/Net.v.  Proof only (no harness of its own: the model of
-handle is tied to the code by props/C05.py, the network semantics by props/C02.py).
+"""C05 -> C02 bridge: theorems in coq/Properties/C05_bridge.v
+  receiving side  coq/Flow/WireToNet.v   every message the model of Consensus.handle accepts abstracts to a Qbft.Model.msg
+                                         satisfying the deliverability premise of coq/Qbft/Net.v
+  sending side    coq/Flow/WireSend.v    transport.Broadcast -> createMsg -> signMsg, ProcessReceives as an LTS
+                  coq/Flow/WireCompose.v the former premise honest_signs_only_broadcasts derived from the composed system
+Correspondence of the sending side: the in-package overlay harness zz_verif_send_test.go (TestVerifSend) records, per call
+of the Broadcast callback given to the real qbft.Run (scripted single node + 4-node in-process consensus), the arguments, what
+was drained from the value channel and the wire message produced (or the error), and every ProcessReceives hand-over; Coq
+checks trace inclusion in WireSend (coq/Flow/WireSendCorr.v).  A scan of the package source checks that the private key
+reaches only signMsg <- createMsg <- transport.Broadcast.
 
-run(R) is called by props/C05.py (and may be called by props/C02.py) with the vp.Result of that
-check; it does not call R.finish().  props/C05_bridge.py runs it alone."""
+run(R) is called by props/C05.py (and may be called by props/C02.py) with the vp.Result of that check; it does not call
+R.finish().  props/C05_bridge.py runs it alone."""
+import glob
+import json
+import os
+import re
+
 import vp
+
+OVDIR = os.path.join(vp.HARNESS, "overlay", "core_consensus_qbft")
+OVFILES = ["zz_verif_test.go", "zz_verif_mut_test.go", "zz_verif_gen_test.go", "zz_verif_decide_test.go", "zz_verif_send_test.go"]
+
+
+def source_scan():
+    """The node's key signs only in signMsg, signMsg is called only by createMsg, createMsg only by transport.Broadcast,
+    and the key field is only handed to newTransport / createMsg.  Returns a list of deviations."""
+    bad = []
+    funcs = []   # (file, function header, body)
+    for p in sorted(glob.glob(os.path.join(vp.REPO, "core", "consensus", "qbft", "*.go"))):
+        if p.endswith("_test.go"):
+            continue
+        src = re.sub(r"//[^\n]*", "", open(p).read())
+        parts = re.split(r"(?m)^func ", src)
+        for part in parts[1:]:
+            head = part.split("{", 1)[0]
+            funcs.append((os.path.basename(p), head.strip(), part))
+
+    def sites(pattern, skip_def=None):
+        out = []
+        for f, head, body in funcs:
+            b = body[len(head):] if skip_def and re.match(skip_def, head) else body
+            n = len(re.findall(pattern, b if not (skip_def and re.match(skip_def, head)) else b))
+            if n:
+                out.append((f, head.split("(")[0] if not head.startswith("(") else head, n))
+        return out
+    sign = sites(r"k1util\.Sign\(")
+    if [(f, n) for f, h, n in sign] != [("msg.go", 1)] or not sign[0][1].startswith("signMsg"):
+        bad.append("k1util.Sign call sites: %s (expected exactly one, in signMsg)" % sign)
+    sm = sites(r"\bsignMsg\(", skip_def=r"signMsg\(")
+    if len(sm) != 1 or sm[0][2] != 1 or not sm[0][1].startswith("createMsg"):
+        bad.append("signMsg call sites: %s (expected exactly one, in createMsg)" % sm)
+    cm = sites(r"\bcreateMsg\(", skip_def=r"createMsg\(")
+    if len(cm) != 1 or cm[0][2] != 1 or "Broadcast" not in cm[0][1] or "transport" not in cm[0][1]:
+        bad.append("createMsg call sites: %s (expected exactly one, in (*transport).Broadcast)" % cm)
+    ck = sites(r"\bc\.privkey\b")
+    if len(ck) != 1 or ck[0][2] != 1 or "runInstance" not in ck[0][1]:
+        bad.append("uses of Consensus.privkey: %s (expected exactly one: newTransport(...) in runInstance)" % ck)
+    tk = sites(r"\bt\.privkey\b")
+    if len(tk) != 1 or tk[0][2] != 1 or "Broadcast" not in tk[0][1]:
+        bad.append("uses of transport.privkey: %s (expected exactly one: the createMsg call in Broadcast)" % tk)
+    for f, head, body in funcs:
+        if re.search(r"\bprivkey\b", body) and not re.search(r"signMsg|createMsg|newTransport|Broadcast|runInstance|NewConsensus", head):
+            bad.append("function %s in %s mentions privkey" % (head[:60], f))
+    return bad
+
+
+def cases_v(out, traces):
+    text = "\n".join(l for t in traces for l in t["labels"])
+    need_p = sorted({int(x) for x in re.findall(r"\bp(\d+)\b", text)})
+    ptext = "\n".join(out["parts"][i] for i in need_p)
+    need_c = sorted({int(x) for x in re.findall(r"\bc(\d+)\b", ptext)})
+    defs = ["Definition c%d := %s." % (i, out["contents"][i]) for i in need_c]
+    defs += ["Definition p%d := %s." % (i, out["parts"][i]) for i in need_p]
+    rows = ["(%d%%nat, %d%%N, [%s])" % (t["id"], t["key"], ";\n  ".join(t["labels"])) for t in traces]
+    return """From Coq Require Import List ZArith NArith Bool.
+From Charon Require Import Flow.WireMsg Flow.WireMsgCorr Flow.WireSend Flow.WireSendCorr.
+Import ListNotations.
+Definition dt : dtab := [%s].
+Definition ht : htab := [%s].
+%s
+Definition SRx := SR dt ht.
+Definition traces : list (nat * N * list cslabel) := [
+%s
+].
+Definition rejects := Eval vm_compute in
+  flat_map (fun t => match c_sfirst_reject (sinit N N N (snd (fst t))) (snd t) 0 with Some (i, _) => [(fst (fst t), i)] | None => [] end) traces.
+Definition reject_info := Eval vm_compute in
+  flat_map (fun t => match c_sfirst_reject (sinit N N N (snd (fst t))) (snd t) 0 with Some x => [(fst (fst t), x)] | None => [] end) traces.
+Print rejects.
+Print reject_info.
+""" % ("; ".join(out.get("dtab") or []), "; ".join(out.get("htab") or []), "\n".join(defs), ";\n".join(rows))
 
 
 def run(R):
@@ -13,8 +97,10 @@ def run(R):
     R.assumptions += [
         "bridge: abstraction wire content -> Qbft.Model.bmsg keeps type, source, round, value hash, prepared round, prepared value hash (hashes as N, nil/zero hash = 0); "
         "drops duty (fixed per instance; every accepted part carries the duty of the main part), signature, attached values, unknown proto fields",
-        "bridge: premise honest_signs_only_broadcasts (whatever an honest member signed for the duty abstracts to an element of Net.v's sent list) is assumed, not proved: "
-        "it is a statement about the sending side (transport.Broadcast/createMsg is the only signer) and about identifying Net.v's sent with real time",
+        "bridge: the sending-side premise (whatever an honest member signed for the duty abstracts to an element of Net.v's sent list) is DERIVED (C05_bridge_honest_signs_only_broadcasts) from "
+        "node_ok: every honest member runs the transport model WireSend on top of its qbft.Run, every Broadcast call of instance d being a Bcast output of that member in the global trace and carrying the instance's duty",
+        "bridge, by inspection but checked mechanically on every run: the private key reaches only signMsg <- createMsg <- (*transport).Broadcast (source scan); the transport model matches transport.go and "
+        "qbft.Run passes its instance/process unchanged to the callback (trace inclusion of recorded calls); ProcessReceives hands on the very message handle enqueued (pointer identity in the harness)",
         "bridge: one key per member (nodes e = c_n c); symbolic signatures (injective serialisation, collision-free hash, unforgeable for honest members' keys) as explicit premises",
     ]
     prev = {k: cov.get(k) for k in ("theorems", "checker_cmd", "coqchk")}
@@ -26,5 +112,49 @@ def run(R):
     if "coqchk" in cov and prev["coqchk"] and prev["coqchk"] != cov["coqchk"]:
         cov["bridge_coqchk"] = cov["coqchk"]
         cov["coqchk"] = prev["coqchk"]
-    cov["evaluations"] += 1          # the vm_compute abstraction example (C05_bridge_abstraction_example)
+    cov["evaluations"] += 2          # the vm_compute examples (abstraction, transport model)
+
+    dev = source_scan()
+    cov["bridge_source_scan"] = "key use confined to signMsg <- createMsg <- (*transport).Broadcast: %s" % ("ok" if not dev else "; ".join(dev))
+    for d_ in dev:
+        R.broke("bridge:signing is no longer confined to transport.Broadcast: " + d_, "")
+
+    files = {f: os.path.join(OVDIR, f) for f in OVFILES}
+    outdir = os.path.join(vp.WORK, "ov_send_%s_%s" % (R.pid, vp.hashlib.sha256(vp.REPO.encode()).hexdigest()[:6]))
+    rc, log, od = vp.go_overlay_test("core/consensus/qbft", files, run="TestVerifSend$", env_extra={"VERIF_TIER": R.tier, "VERIF_ONLY_TRACE": "", "VERIF_REPLAY": ""},
+                                     outdir=outdir, timeout=600)
+    if rc != 0:
+        R.broke("correspondence:overlay harness TestVerifSend failed to run", log[-3000:])
+        return ok
+    out = json.load(open(os.path.join(od, "send.json")))
+    traces = out.get("send_traces") or []
+    for t in traces:
+        t["labels"] = t.get("labels") or []
+    traces = [t for t in traces if t["labels"]]
+    for p in out.get("problems") or []:
+        R.violation("send:" + re.sub(r"[^a-z]+", "-", p.lower())[:60], "sending side of the wrapper: " + p,
+                    {"seed": out.get("seed"), "what": p, "how": "./check C05_bridge re-runs TestVerifSend (deterministic script; cluster runs per seed)"})
+    rc, cout = vp.coq_eval("C05_send" + ("" if vp.REPO == "/repo" else "s"), cases_v(out, traces))
+    if rc != 0:
+        R.broke("correspondence:cases_C05_send does not compile", cout[-3000:])
+    else:
+        info = vp.parse_marked(cout, "reject_info") or ""
+        for tid, idx in [(int(a), int(b)) for a, b in re.findall(r"\((\d+)(?:%nat)?,\s*(\d+)(?:%nat)?\)", vp.parse_marked(cout, "rejects") or "")]:
+            t = next(t for t in traces if t["id"] == tid)
+            lab = t["labels"][idx] if idx < len(t["labels"]) else "?"
+            R.violation("send:transport-model-mismatch", "the real transport.Broadcast/ProcessReceives did something the model Flow/WireSend.v does not allow (%s trace %d, label %d): %s" % (t["kind"], tid, idx, lab[:300]),
+                        {"seed": out.get("seed"), "trace": tid, "index": idx, "label": lab, "model": info[-1500:], "labels_before": t["labels"][max(0, idx - 5):idx]})
+    labels = [l for t in traces for l in t["labels"]]
+    shapes = set()
+    for l in labels:
+        m = re.match(r"SB \(BA (\S+) \(D \d+ \S+\) \S+ \S+ (\d+) \S+ (\d+) \[([^\]]*)\]\) (\S+).*? (None|\(Some \(W .*)$", l)
+        if m:
+            nvals = len(re.findall(r"\(V ", m.group(6).rsplit("[", 1)[-1])) if m.group(6) != "None" else -1
+            shapes.add((m.group(1), m.group(2) != "0", m.group(3) != "0", len([x for x in m.group(4).split(";") if x.strip()]), m.group(5) != "None", nvals))
+    cov["evaluations"] += len(labels)
+    cov["distinct_nontrivial"] += len(shapes)
+    cov["bridge_send"] = {"traces": len(traces), "labels": len(labels), "checks": out.get("checks"), "problems": out.get("problems") or [],
+                          "distinct_broadcast_shapes": len(shapes),
+                          "rule": "one evaluation = one Broadcast callback call or one ProcessReceives hand-over of the real transport; distinct by (message type, value hash set, prepared hash set, "
+                                  "number of justifications, value channel drained, number of values attached / error)"}
     return ok
